@@ -3,8 +3,15 @@
    no Extract Constant; Z / positive stay as extracted inductives. *)
 Require Import ExtrOcamlBasic.
 Require Import Base Fixed Panic Curve.
+Require Import ConfigGen Config Emode ConfigPaths ConfigHealth.
 Extraction Language OCaml.
 Extraction "extract/model.ml"
   p_pause p_unpause p_unpause_if_expired p_is_expired p_can_pause c_is_expired ix_propagate
   ix_panic_pause ix_panic_unpause ix_panic_unpause_permissionless is_protocol_paused mkP
-  ir_validate calc_interest_rate mpc legacy_curve.
+  ir_validate calc_interest_rate mpc legacy_curve
+  bc_validate ss_validate calc_max_leverage em_validate u32_to_basis basis_to_u32 bank_configure
+  bank_configure_unfrozen reconcile_emode_configs calc_value_dec ix_add_bank ix_add_bank_permissionless
+  ix_configure_bank ix_configure_interest_only ix_configure_limits_only ix_configure_emode ix_clone_emode
+  ix_propagate_staked ix_group_set_caps ix_init_staked_settings ix_edit_staked_settings es_zeroed
+  account_health account_health_no_emode apply_reqs OP_KILLED DEFAULT_INIT_MAX_EMODE_LEVERAGE
+  DEFAULT_MAINT_MAX_EMODE_LEVERAGE.
